@@ -93,6 +93,14 @@ CHECKS = {
         note="datetime.now inside joblib._store_backends is owned by the harness; sizes are exact output.pkl sizes on tmpfs; age equality at the deadline is not exercised.",
         design_ref="2/C18",
     ),
+    "C20": dict(
+        category="model_checking",
+        engine="explicit-state BFS on the real tracker loop + real-process fault enumeration",
+        technique="explicit-state model checking: BFS to fixpoint over the command alphabet on the real resource_tracker.main() loop (registry read from its frame, file system inspected at every transition) against a refcount reference model; exhaustive client histories with kill points against a real tracker process",
+        text="(a) The reachable state space of the tracker's refcount loop (registry x existence of a file, a folder and a file inside it), with refcounts capped at 2/3, is closed under a 17-letter alphabet including unbalanced, unknown and garbled requests; every transition of the real loop and the end-of-input clean-up from every state agree with the reference model (delete exactly at count 0, never otherwise, files before folders, malformed input changes nothing and does not stop the loop). (b) Every client history of length <= 2 (thorough 3), split over two client processes that exit or are SIGKILLed, is run against a real tracker process, which must converge to the model state, exit at EOF and leave the model's post-state on disk. (c) TemporaryResourcesManager operation sequences are checked at the _send seam.",
+        note="(a) rebinds resource_tracker.open/sys/signal as module attributes; state merging uses the real registry dict and file existence, which determine the loop's future. (b) uses real processes: the OS schedule is not controlled, the check polls for convergence (5 s) and tracker exit (10 s).",
+        design_ref="2/C20",
+    ),
 }
 
 NOT_BUILT_REASON = "check not built yet in this revision of /verif (planned in DESIGN.md section 2; model checking applies)"
